@@ -84,6 +84,14 @@ func accountOf(v *Validator) e2wtypes.Account {
 	return &fakeAccount{name: v.Account, wallet: &fakeWallet{name: v.Wallet}, key: fakeKey(k[:])}
 }
 
+// holdCtl lets the harness keep an auction waiting inside the bid provider.
+type holdCtl struct {
+	entered     chan struct{}
+	release     chan struct{}
+	enteredOnce sync.Once
+	releaseOnce sync.Once
+}
+
 // ---- the scripted world
 
 type providerCall struct {
@@ -107,7 +115,8 @@ type world struct {
 	accountsCalls int
 
 	// builder-bid provider
-	bidMode       map[uint64]string // by slot: none | bid | error
+	bidMode       map[uint64]string   // by slot: none | bid | error
+	hold          map[uint64]*holdCtl // by slot: the answer is withheld until released
 	providerCalls []providerCall
 }
 
@@ -188,7 +197,12 @@ func (w *world) BuilderBid(_ context.Context, slot phase0.Slot, _ phase0.Hash32,
 	w.mu.Lock()
 	w.providerCalls = append(w.providerCalls, providerCall{slot: uint64(slot), pubkey: pubkey, config: proposerConfig})
 	mode := w.bidMode[uint64(slot)]
+	h := w.hold[uint64(slot)]
 	w.mu.Unlock()
+	if h != nil {
+		h.enteredOnce.Do(func() { close(h.entered) })
+		<-h.release
+	}
 	switch mode {
 	case "error":
 		return nil, errors.New("scripted auction failure")
